@@ -45,7 +45,7 @@ func (m *c05Mon) after(h *H, s *step) {
 		}
 	}
 	if s.Kind == "logout" && r.IsRedirect() && !w.IsLoginRedirect(r) {
-		if r.Location() != w.ExpectLogoutURI {
+		if !atEndSessionURI(r.Location(), w.ExpectLogoutURI) {
 			c.Violation("logout-redirect-target", "logout redirects to %q, configured-or-discovered end-session URI is %q", r.Location(), w.ExpectLogoutURI)
 		}
 		expired := false
